@@ -36,6 +36,11 @@ func drawKey(t *rapid.T, c elliptic.Curve) (*patecdsa.PrivateKey, *stdecdsa.Priv
 		d.Sub(n, big.NewInt(1))
 	}
 	dBuf := d.Bytes()
+	if gen.Uniform(t, 8, "oversizeEncoding") == 0 {
+		// the same key given as d + k*N in an encoding longer than the scalar size: CreateKey takes any byte string
+		k := new(big.Int).Lsh(big.NewInt(int64(gen.UniformRange(t, 1, 1000, "k"))), uint(8*gen.UniformRange(t, 1, 8, "shift")))
+		dBuf = new(big.Int).Add(d, new(big.Int).Mul(k, n)).Bytes()
+	}
 	pk, err := patecdsa.CreateKey(c, dBuf)
 	if err != nil {
 		t.Fatalf("CreateKey: %v", err)
@@ -461,4 +466,143 @@ func TestEntropyFaults(t *testing.T) {
 	s.Sample(func() any {
 		return fmt.Sprintf("e.g. Sign on P-384 with a reader failing after 17 of 32 bytes, 7-byte reads")
 	})
+}
+
+// TestWrapAroundSignatures: signatures whose nonce point has an x coordinate in [N, P), so that r = x - N is tiny
+// (random signing meets this with probability ~2^-128). Built Wycheproof-style: pick R with R.x = N + i, any
+// digest and s, and derive the public key Q = r^-1 (sR - eG) under which (r, s) is valid.
+func TestWrapAroundSignatures(t *testing.T) {
+	s := rt.S("wrap-around-r").SetRule("for each curve the first values i >= 1 such that x = N + i is the x coordinate of a curve point R (x < P); drawn digest and s; public key Q = r^-1(sR - eG) with r = i: (r, s) is a valid signature under Q whose verification needs the reduction of R.x modulo N; oracle: fork Verify/VerifyASN1 == crypto/ecdsa (which must say true). non-trivial = every case; distinct by (curve, i, digest, s)")
+	type wrap struct {
+		c    elliptic.Curve
+		i    int64
+		x, y *big.Int
+	}
+	var wraps []wrap
+	for _, c := range curves {
+		p, n, b := c.Params().P, c.Params().N, c.Params().B
+		found := 0
+		for i := int64(1); i < 4000 && found < 3; i++ {
+			x := new(big.Int).Add(n, big.NewInt(i))
+			if x.Cmp(p) >= 0 {
+				break
+			}
+			// y^2 = x^3 - 3x + b
+			y2 := new(big.Int).Exp(x, big.NewInt(3), p)
+			y2.Sub(y2, new(big.Int).Mul(big.NewInt(3), x))
+			y2.Add(y2, b)
+			y2.Mod(y2, p)
+			y := new(big.Int).ModSqrt(y2, p)
+			if y == nil || !c.IsOnCurve(x, y) {
+				continue
+			}
+			wraps = append(wraps, wrap{c, i, x, y})
+			found++
+		}
+	}
+	if len(wraps) == 0 {
+		t.Fatal("harness: no wrap-around points found")
+	}
+	rt.Check(t, 200, 20000, func(t *rapid.T) {
+		w := gen.Pick(t, wraps, "point")
+		c, n := w.c, w.c.Params().N
+		digest := gen.Digest(t, "digest")
+		sv := new(big.Int).SetBytes(rapid.SliceOfN(rapid.Byte(), 70, 70).Draw(t, "s"))
+		sv.Mod(sv, new(big.Int).Sub(n, big.NewInt(1)))
+		sv.Add(sv, big.NewInt(1))
+		r := big.NewInt(w.i)
+		// e as the verifier derives it (leftmost bits of the digest)
+		orderBits := n.BitLen()
+		orderBytes := (orderBits + 7) / 8
+		h := digest
+		if len(h) > orderBytes {
+			h = h[:orderBytes]
+		}
+		e := new(big.Int).SetBytes(h)
+		if excess := len(h)*8 - orderBits; excess > 0 {
+			e.Rsh(e, uint(excess))
+		}
+		// Q = r^-1 (s R - e G)
+		rInv := new(big.Int).ModInverse(r, n)
+		sx, sy := c.ScalarMult(w.x, w.y, sv.Bytes())
+		negE := new(big.Int).Mod(new(big.Int).Neg(e), n)
+		ex, ey := c.ScalarBaseMult(negE.Bytes())
+		tx, ty := c.Add(sx, sy, ex, ey)
+		if tx.Sign() == 0 && ty.Sign() == 0 {
+			t.Skip("degenerate")
+		}
+		qx, qy := c.ScalarMult(tx, ty, rInv.Bytes())
+		std := &stdecdsa.PublicKey{Curve: c, X: qx, Y: qy}
+		s.Eval()
+		s.Class(c.Params().Name)
+		s.Nontrivial([]byte(c.Params().Name), []byte{byte(w.i)}, digest, sv.Bytes())
+		want := stdecdsa.Verify(std, digest, r, sv)
+		if !want {
+			t.Fatalf("harness: the constructed wrap-around signature is not valid under crypto/ecdsa (curve %s i=%d)", c.Params().Name, w.i)
+		}
+		pub := &patecdsa.PublicKey{Curve: c, X: qx, Y: qy}
+		if got := patecdsa.Verify(pub, digest, r, sv); got != want {
+			rt.Fail(t, "C13/"+c.Params().Name+"/verify-verdict-wraparound", "fork Verify=%v, crypto/ecdsa.Verify=%v for a signature whose R.x lies in [N, P) (r = %d)", got, want, w.i)
+			return
+		}
+		der := derSeq(derInt(r), derInt(sv))
+		if got, want := patecdsa.VerifyASN1(pub, digest, der), stdecdsa.VerifyASN1(std, digest, der); got != want {
+			rt.Fail(t, "C13/"+c.Params().Name+"/verifyasn1-verdict/wraparound", "fork VerifyASN1=%v, crypto/ecdsa=%v", got, want)
+			return
+		}
+		s.Sample(func() any { return map[string]any{"curve": c.Params().Name, "r": w.i, "s": sv.String()} })
+	})
+}
+
+// TestManySignaturesDER: scalars with leading zero BYTES (two or more) come up once in ~2^16 signatures; only volume finds
+// an encoder that mishandles them. Every ASN.1 signature must parse under crypto/ecdsa and be the minimal DER of its (r, s).
+func TestManySignaturesDER(t *testing.T) {
+	s := rt.S("many-signatures-der").SetRule("SignASN1 / PrivateKey.Sign on P-224 and P-256 with one key per shard, a counter as digest and a DRBG: quick 40000, thorough 2000000 signatures (split over shards); each output must verify under crypto/ecdsa.VerifyASN1 and equal the minimal DER encoding of the (r, s) it decodes to. non-trivial = signature whose r or s has at least one leading zero byte; distinct by construction (distinct digests)")
+	total := rt.N(40000, 2000000)
+	var cnt, small int64
+	rnd := rt.NewDRBG([]byte(fmt.Sprintf("many signatures %d %d", rt.BaseSeed, rt.Shard)))
+	for ci, c := range []elliptic.Curve{elliptic.P256(), elliptic.P224()} {
+		d := new(big.Int).SetBytes(bytes.Repeat([]byte{byte(0x17 + ci + rt.Shard)}, 24))
+		pk, _ := patecdsa.CreateKey(c, d.Bytes())
+		x, y := c.ScalarBaseMult(d.Bytes())
+		std := &stdecdsa.PublicKey{Curve: c, X: x, Y: y}
+		size := (c.Params().N.BitLen() + 7) / 8
+		for i := 0; i < total/2; i++ {
+			digest := []byte(fmt.Sprintf("digest %d %d", rt.Shard, i))
+			var der []byte
+			var err error
+			if i%2 == 0 {
+				der, err = patecdsa.SignASN1(rnd, pk, digest)
+			} else {
+				der, err = pk.Sign(rnd, digest, crypto.SHA256)
+			}
+			cnt++
+			if err != nil {
+				rt.Report(t, "C13/many/sign-error", "", nil, "SignASN1: %v", err)
+				break
+			}
+			if !stdecdsa.VerifyASN1(std, digest, der) {
+				rt.Report(t, "C13/many/signasn1-rejected-by-std", "", nil, "signature %d on %s is rejected by crypto/ecdsa.VerifyASN1: %x", i, c.Params().Name, der)
+				break
+			}
+			// minimal DER of what it decodes to
+			var r, sv big.Int
+			if rest := der; len(rest) > 8 {
+				// cheap decode: SEQUENCE, two INTEGERs with short lengths
+				rl := int(rest[3])
+				r.SetBytes(rest[4 : 4+rl])
+				sv.SetBytes(rest[6+rl:])
+				if !bytes.Equal(derSeq(derInt(&r), derInt(&sv)), der) {
+					rt.Report(t, "C13/many/der-not-minimal", "", nil, "signature %d on %s is not the minimal DER of its (r, s): %x", i, c.Params().Name, der)
+					break
+				}
+				if len(r.Bytes()) <= size-1 || len(sv.Bytes()) <= size-1 {
+					small++
+				}
+			}
+		}
+	}
+	s.EvalN(cnt)
+	s.NontrivialEnum(small)
+	s.Sample(func() any { return map[string]any{"signatures": cnt, "with_leading_zero_byte": small} })
 }
